@@ -787,7 +787,14 @@ def use_lemma(self, call_src, st, guard=None):
 
 # ---------------------------------------------------------------------------------------------- loops
 def st_For(self, s, st):
-    for it, s1 in self.ev(s.iter, st):
+    it_node = s.iter
+    if isinstance(it_node, ast.Call) and isinstance(it_node.func, ast.Name) and it_node.func.id == "list" \
+            and len(it_node.args) == 1 and not it_node.keywords and "list" not in st.env:
+        # `for x in list(v)`: iterate over a snapshot of v.  Views of dicts/sets ARE snapshots (their enumeration and the
+        # arrays they read are fixed when the view is created), so the copy need not be materialised; this keeps the
+        # enumeration available to loop invariants as _keysK.
+        it_node = it_node.args[0]
+    for it, s1 in self.ev(it_node, st):
         yield from self.exec_loop(s, s1, it)
 
 
